@@ -294,7 +294,7 @@ def clean_tree(xml: str):
 
 
 def gen_handlers(rng, tier, for_corr=False):
-    for u, ctx, desc, tree, kind in documents(rng, tier, n_cases(tier, 60, 350), 3, mutate=True):
+    for u, ctx, desc, tree, kind in documents(rng, tier, n_cases(tier, 60, 300), 3, mutate=True):
         lay = rng.random()
         try:
             d = D.plain_dtree(tree) if lay < 0.3 else D.layout(rng, tree, allow_default=default_ok(desc, tree))
